@@ -62,8 +62,12 @@ def as_pair(name, value, lower_bound=None, upper_bound=None, check_odd=False):
         raise ValueError(f'{name} must have 1 or 2 elements')
     if value.ndim != 1:
         raise ValueError(f'{name} must be 1D')
-    if value.dtype.kind != 'i':
+    if value.dtype.kind not in 'iu':
         raise ValueError(f'{name} must have integer values')
+    if value.dtype.kind == 'u':
+        # unsigned integers are integer values too; use a signed dtype
+        # so that later arithmetic (e.g., negation) cannot wrap around
+        value = value.astype(int)
     if check_odd and np.all(value % 2) != 1:
         raise ValueError(f'{name} must have an odd value for both axes')
 
